@@ -100,6 +100,9 @@ func ruleShadowedVerdict(c *Ctx, rels []string) {
 					// descend
 					switch x := st.(type) {
 					case *ast.BlockStmt:
+						if inlineFrames[x] != nil {
+							break // the body of a helper spliced in: its declarations are the helper's (judged as a function of its own)
+						}
 						walk(x.List, depth+1, x.End())
 					case *ast.IfStmt:
 						walk(x.Body.List, depth+1, x.Body.End())
